@@ -380,7 +380,7 @@ fn gen_case(rng: &mut Rng) -> CaseD {
         c.nodes.push(NodeD::Router(RouterD { slots, routes }));
     }
     // ---- route mutations ----
-    let mutate = rng.chance(3, 5);
+    let mutate = rng.chance(1, 2);
     let burst_case = rng.chance(1, 4);
     if mutate {
         c.clean = false;
@@ -528,17 +528,18 @@ fn gen_case(rng: &mut Rng) -> CaseD {
             30
         } else {
             let k = hops_needed.unwrap_or(2) as u8;
-            match rng.below(12) {
-                0 => 0,
+            match rng.below(14) {
+                0 => if rng.chance(1, 3) { 0 } else { 1 },
                 1 => 1,
                 2 => 2,
-                3 => k,
-                4 => k + 1,
-                5 => k.saturating_sub(1),
-                6 => 3,
-                7 => 255,
-                8 => 64,
-                9 => rng.range(4, 12) as u8,
+                3 => k.max(1),
+                4 | 5 => k + 1,
+                6 => k.saturating_sub(1).max(1),
+                7 => 3,
+                8 => 255,
+                9 => 64,
+                10 => rng.range(4, 12) as u8,
+                11 => k + 2,
                 _ => 30,
             }
         };
